@@ -197,6 +197,7 @@ func copyFiles(a, b map[string]string) map[string]string {
 }
 
 var (
+	reDotted     = regexp.MustCompile(`eu\.west\.svc-[a-z]|svc\.[a-z]`) // generated service names containing dots
 	reDigits     = regexp.MustCompile(`[0-9]+`)
 	reQuoted     = regexp.MustCompile(`"[^"]*"`)
 	reValidating = regexp.MustCompile(`validating /[^ ]*: `)
@@ -206,6 +207,7 @@ var (
 // errClass reduces an error message to a stable class (no scratch paths, names or numbers).
 func errClass(work string, err error) string {
 	m := err.Error()
+	m = reDotted.ReplaceAllString(m, "svc-z")
 	m = strings.ReplaceAll(m, work, "")
 	m = reValidating.ReplaceAllString(m, "validating: ")
 	m = reQuoted.ReplaceAllString(m, `"_"`)
